@@ -18,7 +18,8 @@ Equal chain entries reuse the SAME MDP object (optionally with its cached tabula
 
 Input representations (case["repr"], all optional): state/action LABELS (ints, strings whose sorted
 order differs from the index order, tuples, falsy values "" () 0), next-state distributions as
-DictDistribution / deterministic / uniform objects, action containers list vs tuple, initial
+DictDistribution / deterministic / uniform objects, action containers list vs tuple (persistent
+per-state objects) or ONE shared list object for all states (QuickTabularMDP(actions=[...])), initial
 distribution as object / callable / initial_state=, discount and margin as int, heuristic returning
 ints; planner options seed=None, no event listener, max_trial_length, tiny iteration caps.
 Everything is reported back in the generator's integer ids.
@@ -62,7 +63,10 @@ def build_labeled(mc, rp):
         s, a, ns = map(int, k.split(","))
         rew[(sl[s], al[a], sl[ns])] = fl(r)
     cont = tuple if rp.get("actions_tuple", True) else list
-    actions = {sl[s]: cont(al[a] for a in mc["actions"][s]) for s in range(n)}
+    actions = {sl[s]: cont(al[a] for a in mc["actions"][s]) for s in range(n)}   # persistent per-state objects
+    shared = None
+    if rp.get("actions_shared") and all(mc["actions"][s] == mc["actions"][0] for s in range(n)):
+        shared = [al[a] for a in mc["actions"][0]]     # ONE list object handed out for every state
     absorbing = {sl[s]: bool(mc["absorbing"][s]) for s in range(n)}
     init = DictDistribution({sl[s]: fl(p) for s, p in mc["init"]})
     g = Fraction(mc["gamma"])
@@ -77,7 +81,7 @@ def build_labeled(mc, rp):
     mdp = QuickTabularMDP(
         next_state_dist=lambda s, a: trans[(s, a)],
         reward=lambda s, a, ns: rew.get((s, a, ns), (0 if rp.get("int_numbers") else 0.0)),
-        actions=lambda s: actions[s],
+        actions=(shared if shared is not None else (lambda s: actions[s])),
         is_absorbing=lambda s: absorbing[s],
         discount_rate=(int(g) if rp.get("int_numbers") and g.denominator == 1 else float(g)),
         **kw)
@@ -191,7 +195,14 @@ def one(case, pl):
         L.clear()
         L.update({"ops": [], "known": set(), "overflow": False, "greedy": {}, "n": n, "sl": sl, "ntrials": 0,
                   "counters": {"trials": 0, "steps": 0}})
+        # the problem object must come back unchanged: snapshot what the planner can reach
+        snap = lambda: {"actions": [list(mdp.actions(x)) for x in sl],
+                        "init": list(mdp.initial_state_dist().items()),
+                        "trans": [[list(mdp.next_state_dist(x, a).items()) for a in mdp.actions(x)] for x in sl]}
+        before_plan = snap()
         res = planner.plan_on(mdp)
+        after_plan = snap()
+        mutated = [k for k in before_plan if repr(before_plan[k]) != repr(after_plan[k])]
         keys = [i for i in range(n) if sl[i] in res.V]
         returned = []
         for i in range(n):
@@ -212,7 +223,7 @@ def one(case, pl):
             "initial_value": fj(res.initial_value),
             "converged_attr": (str(res.converged) if hasattr(res, "converged") else "missing"),
             "trials": L["ntrials"], "steps": L["counters"]["steps"],
-            "ops": L["ops"], "ops_overflow": L["overflow"],
+            "ops": L["ops"], "ops_overflow": L["overflow"], "mutated": mutated,
         })
     if "chain" in case:
         return {"chain": outs}
